@@ -598,7 +598,11 @@ def run_lean(ctx: core.Ctx, batch: list[Case]) -> None:
 def generated_cases(ctx: core.Ctx, n: int, rich: bool = True, effect_only: bool = False):
     rng = ctx.rng
     for k in range(n):
-        p = G.gen_pattern(rng, rich, effect_only)
+        if rng.random() < 0.2:
+            p = G.gen_diamond_pattern(rng, rich, effect_only)
+            ctx.count("gen.diamond-pattern")
+        else:
+            p = G.gen_pattern(rng, rich, effect_only)
         for _ in range(2 if rng.random() < 0.5 else 1):
             pl, muts = G.gen_payload(rng, p, effect_only)
             if not G.payload_well_formed(pl):
@@ -661,8 +665,8 @@ def selftest(ctx: core.Ctx, n: int) -> None:
     """the emitters and the extractor agree: extract(parse(text(p))) = p; canon(parse(text(pl))) = pl"""
     from xdsl.dialects import pdl
     rng = ctx.rng
-    for _ in range(n):
-        p = G.gen_pattern(rng)
+    for k in range(n):
+        p = G.gen_diamond_pattern(rng) if k % 4 == 3 else G.gen_pattern(rng)
         pm = P.parse(P.pattern_text(p))
         pat = [o for o in pm.walk() if isinstance(o, pdl.PatternOp)][0]
         q = P.extract_pattern(pat)
